@@ -2,7 +2,7 @@
 from . import gwcheck, gwfocus
 
 PID = "C07"
-PROJ = ["out", "jobs", "trans", "exc"]
+PROJ = ["out", "jobs", "trans", "exc", "cb"]
 PROPS = ["QuietWhileAsleep", "BurstShape", "NoEffectOnBad"]
 INVS = ["Disciplines"]
 VERS = ["2.0", "2.1", "2.2"]
